@@ -17,10 +17,11 @@ using namespace hz;
 using scn::fmt;
 
 struct Profile {
-	uint32_t w_ping = 6, w_up = 4, w_offer = 4, w_adv = 3, w_nreq = 1, w_redeliver = 0, w_freeze = 0, w_rawmix = 0;
+	uint32_t w_ping = 6, w_up = 4, w_offer = 4, w_adv = 3, w_nreq = 1, w_redeliver = 0, w_freeze = 0, w_rawmix = 0, w_recycle = 0;
 	int max_sessions = 1;
 	bool wild_frag = false;     // C15: fragment sizes from the hostile list, ack games
 	bool ack_games = false;
+	bool c2c = false;           // upstream packets may be addressed to another session's tunnel address (the server forwards them itself)
 	int max_actions = 60;
 	size_t max_body = 1400;
 };
@@ -86,7 +87,7 @@ struct Run {
 	// statistics for the non-trivial rules
 	int n_redeliver = 0, n_red_cache = 0, n_red_qmem = 0, n_red_pending = 0, n_red_lastfrag = 0, n_red_case = 0, n_red_otheraddr = 0;
 	int n_multi3 = 0, n_nreq_ok = 0, n_badfrag = 0, n_dup_twice = 0, n_realsoon = 0, n_tun_via_held = 0, n_long = 0;
-	int n_cache_same = 0, n_trunc = 0, n_lost_answers = 0, n_giveup = 0, n_raw = 0;
+	int n_cache_same = 0, n_trunc = 0, n_lost_answers = 0, n_giveup = 0, n_raw = 0, n_recycled = 0, n_recycled_data_before_n = 0, n_c2c = 0;
 	uint64_t n_data_emits = 0;
 	std::vector<std::string> classes;
 };
@@ -419,7 +420,10 @@ struct Engine {
 		static const char cm[] = "abcdefghijklmnopqrstuvwxyz0123456789";
 		if (!p.up_active) {
 			if (p.up_queue.empty()) {
-				Bytes pkt = scn::gen_packet(t, R.s->server_tun_ip(), p.tun_ip, (uint16_t)(1000 + p.up_completed.size()), std::min<size_t>(P.max_body, 900));
+				Bytes dst = R.s->server_tun_ip(); Peer *to = nullptr;
+				if (P.c2c && R.peers.size() > 1 && t.chance(1, 3)) { Peer &o = *R.peers[t.below((uint32_t)R.peers.size())]; if (&o != &p) { dst = o.tun_ip; to = &o; } }
+				Bytes pkt = scn::gen_packet(t, dst, p.tun_ip, (uint16_t)(1000 + p.up_completed.size()), std::min<size_t>(P.max_body, 900));
+				if (to) { to->zs.push_back(refproto::zcompress(pkt)); to->offered.push_back(pkt); R.n_c2c++; }   // the receiver's downstream stream will carry it
 				p.up_queue.push_back(pkt);
 			}
 			p.up_cur_pkt = p.up_queue.front(); p.up_queue.pop_front();
@@ -466,6 +470,32 @@ struct Engine {
 			if (echoed || got != "BADFRAG") R.v.fail("C15", "C15:small-size-accepted", fmt("fragment size %d (< 2) was not rejected with BADFRAG: answer '%s'", F, hexs(Bytes(got.begin(), got.end()), 16).c_str()));
 		} else if (echoed) { p.F = F; R.n_nreq_ok++; }
 		note(fmt("peer%d N %d -> %s", peer_index(p), F, echoed ? "ok" : got.c_str()));
+	}
+
+	// The session falls silent for more than 60 s (its slot expires) and the same host logs in again: it normally gets the same
+	// slot back, and nothing the earlier session negotiated (fragment size, codecs, lazy mode, queued packets) may survive.
+	bool do_recycle(Peer &p)
+	{
+		sim::W.run_for(61000000 + t.below(15000000));
+		absorb_new(p);
+		int old_user = p.sc.userid, oldF = p.F;
+		p.sc.dn_seq = p.sc.dn_frag = 0; p.sc.dn_buf.clear(); p.sc.up_seq = 0; p.sc.up_codec = 0; p.sc.data_cmc = 0;
+		p.lazy = t.chance(2, 3);
+		char de = t.chance(1, 2) ? 0 : "TSUVR"[t.below(5)];
+		static const int UPB[] = {0, 5, 6, 26, 7};
+		int upb = UPB[t.pick({3, 1, 2, 2, 2})];
+		int F0 = t.chance(1, 2) ? 0 : (P.wild_frag ? t.range(2, 1300) : t.range(20, 1200));
+		if (F0 > (int)format_cap()) F0 = t.range(2, (int)format_cap());
+		if (!p.sc.handshake(p.lazy, F0, de, upb)) return false;
+		p.F = F0 ? F0 : 100;
+		p.tun_ip = ip_of_text(p.sc.tun_ip_text);
+		p.up_queue.clear(); p.up_active = false; p.up_off = 0; p.up_frag = 0;
+		int keep = (int)p.zs.size() - 1;
+		p.st = Stream(); p.st.pkt = keep;          // packets read for the earlier session are not expected in the new one
+		p.prev_acks.clear(); p.flips = 0; p.frozen = 0; p.raw = false; p.saved_order.clear();
+		R.n_recycled++;
+		note(fmt("peer%d silent for > 60 s, logs in again: user %d -> %d, F %d -> %d%s", peer_index(p), old_user, p.sc.userid, oldF, p.F, F0 ? "" : " (no size set)"));
+		return true;
 	}
 
 	// raw-mode traffic of the same session mixed with its DNS-mode queries: raw login (response to challenge+1),
@@ -586,7 +616,7 @@ inline void run_sessions(Tape &t, const Profile &P, Run &R)
 	uint64_t last_q = sim::W.now;
 	for (int a = 0; a < nact && !sim::W.livelock; a++) {
 		Peer &p = *R.peers[t.below((uint32_t)R.peers.size())];
-		size_t kind = t.pick({P.w_ping, P.w_up, P.w_offer, P.w_adv, P.w_nreq, P.w_redeliver, P.w_freeze, P.w_rawmix});
+		size_t kind = t.pick({P.w_ping, P.w_up, P.w_offer, P.w_adv, P.w_nreq, P.w_redeliver, P.w_freeze, P.w_rawmix, P.w_recycle});
 		switch (kind) {
 		case 0: E.do_ping(p, P.ack_games ? (int)t.pick({8, 2, 2, 1, 1}) : 0); last_q = sim::W.now; break;
 		case 1: E.do_up(p); last_q = sim::W.now; break;
@@ -602,6 +632,7 @@ inline void run_sessions(Tape &t, const Profile &P, Run &R)
 		case 4: E.do_nreq(p); last_q = sim::W.now; break;
 		case 5: E.do_redeliver(p); break;
 		case 7: E.do_rawmix(p); last_q = sim::W.now; break;
+		case 8: if (R.n_recycled < 2) { if (!E.do_recycle(p)) { R.up = false; R.render = c.describe() + " | scripted handshake after an expiry failed"; return; } last_q = sim::W.now; } break;
 		default: {
 			// a burst of answers is lost: the peer keeps pinging with its old acknowledgement (the server re-sends the
 			// fragment and gives the packet up after the sixth attempt)
